@@ -34,7 +34,14 @@ THEOREMS = [_T + n for n in [
     "C03_multipolygon_iff",
     "C03_membersOkB_sound", "C03_buildTable_wellFormed", "C03_union_unique", "C03_union_eq", "C03_union_agrees",
     "C03_union_rejects", "C03_union_valid",
-    "C03_instance_passthrough", "C03_instance_revalidate_partial", "C03_instance_wrong_mode"]]
+    "C03_instance_passthrough", "C03_instance_revalidate_partial", "C03_instance_wrong_mode",
+    # follow-up (histories and construction paths): class-level entry points; Python's attribute lookup (where an
+    # attribute object keeps `type` / `coordinates`); geometry objects that came out of a construction handed back
+    # in; Python's argument binding under the extracted signatures; histories
+    "C03_class_entrypoints_agree", "C03_class_foreign_tag", "C03_attr_lookup", "C03_attr_missing",
+    "C03_carrier_get", "C03_carriers_agree", "C03_instance_of_constructed", "C03_union_instance_of_constructed",
+    "C03_call_styles", "C03_ctor_keyword_order",
+    "C03_history_stateless", "C03_history_prefix_independent", "C03_history_repeat"]]
 LEVEL_TEXT = ("Lean theorems over an executable model of the nine geometry classes (pydantic's typed parse of the "
               "annotated shape, then the class's field validators in the code's order and control flow) and of "
               "geometry_validate's mode/tag dispatch: for all rational coordinate structures, construction succeeds iff "
@@ -43,7 +50,13 @@ LEVEL_TEXT = ("Lean theorems over an executable model of the nine geometry class
               "class named by its tag, and a fixpoint of dump/re-validate; the constructor and the three modes agree, and "
               "so does validation against the `Geometry` union (the path by which geometries enter SoundEvent and AOEF "
               "objects); per class the acceptance condition is proved in elementary terms; the table built from "
-              "geom_type() over the class list is well formed. "
+              "geom_type() over the class list is well formed. The class-level entry points (model_validate, "
+              "model_validate_json, from_attributes) agree with the constructor; the attributes mode is modelled through "
+              "Python's attribute lookup (data descriptor, instance __dict__, class attribute, __getattr__), so every "
+              "kind of attribute object is proved to be read alike; calls are modelled through Python's argument binding "
+              "under the signature extracted from the code (positional, keyword, either keyword order, defaulted mode all "
+              "run the body on the same arguments; constructor keywords in either order); a history of calls is proved to "
+              "be the list of the models of its calls whatever state a process threads through. "
               "Every class's validator chain is re-derived from the source on each run by path-exhaustive symbolic "
               "tracing at fixed shapes and proved equal to the model for all coordinate values; GEOMETRY_MAPPING and "
               "MAX_FREQUENCY are re-extracted and discharged as obligations; exhaustive small structures and random "
@@ -53,28 +66,55 @@ LEVEL_NOTE = ("Trusted: Lean kernel; symbolic tracer (ordered-field semantics); 
               "instances and of ValueError inside validators (modelled, and exercised un-stubbed by the differential "
               "runs); CPython json and float repr round trip. Model tied to the code by regenerated obligations (fixed "
               "shapes up to 4 points / 2 rings / 2 parts; GEOMETRY_MAPPING, geom_type(), ALL_GEOMETRY_TYPES, the members "
-              "of the Geometry union, MAX_FREQUENCY) and generator-bounded correspondence. Unmodelled: non-numeric "
-              "inputs (strings, booleans, tuples: pydantic's lax coercions); tag-less inputs of the union; integers "
+              "of the Geometry union, MAX_FREQUENCY, the signatures of geometry_validate and of the nine constructors) and "
+              "generator-bounded correspondence. That the code reads an attribute object only through getattr, copies "
+              "the lists it is given and keeps no state between calls is not proved of Python: it is exercised (21 kinds "
+              "of attribute object, histories with reused / mutated arguments, poisoned and re-read results, argument "
+              "snapshots). Containers other than lists (tuples, numpy arrays, deques) and numpy scalars are generated "
+              "because pydantic's lax mode accepts them today; they carry no model of their own (same numbers, same "
+              "answer). Unmodelled: non-numeric inputs (strings, booleans: pydantic's lax coercions); numpy arrays with a "
+              "trailing dimension of 1 (numpy converts a size-1 array to a float); tag-less inputs of the union; integers "
               "beyond 2^53 (rounded by int->float). Non-finite floats have no rational value: the property is evaluated "
               "on them directly on the real objects (known finding C03-1: NaN / +inf times accepted, dumped as null). "
               "Known finding C03-2: an existing instance is handed back unvalidated by the attributes mode "
               "(C03_instance_passthrough; C03_instance_revalidate_partial holds for valid instances).")
 TECHNIQUE = ("Lean 4 proof over model; per-class validator chains symbolically traced and proved equal to the model; "
-             "table obligations by decide; exhaustive small-structure and random correspondence through four entry points")
+             "table and signature obligations by decide; exhaustive small-structure and random correspondence through "
+             "every entry point, way of passing and kind of attribute object; histories of calls in one process")
 RULE = ("exhaustive shape universes (all nestings to depth 3), exhaustive value tuples over the boundary pool for the "
         "flat classes, exhaustive point sequences, every leaf of nested bases replaced by every pool value, arity / "
         "nesting / count / order mutations, random structures; each through constructor and geometry_validate in "
-        "dict / json / attributes mode; non-trivial = the implementation accepted the input (an object exists); "
+        "dict / json / attributes mode; construction paths: every sample x 21 kinds of attribute object (where `type` / "
+        "`coordinates` live: instance, class body, property, slot, named tuple, __getattr__, shadowed; geometry objects "
+        "from constructor / model_copy / deepcopy / model_validate(_json) / pickle) x 6 call styles (positional, keyword, "
+        "all keywords, reversed keywords, default mode, obj= alone) x the 3 exported names, class-level model_validate / "
+        "model_validate_json (lax, strict) / from_attributes, tuples / numpy arrays / deques for lists, ints / numpy "
+        "int64 / float64 / float32 / -0.0 for floats, the union as SoundEvent.geometry (python and JSON); boundaries: "
+        "every pinned comparison with operands one ulp, 2^-20..2^-40, 1e-6..1e-12 apart on both sides and equal, at "
+        "magnitudes 0..2^40, every k/100 lattice point, 17 / 257 / 1024 / 1025 points or members; histories: 3-5 calls "
+        "in one process (x, a neighbour of x, x again) over all entry points with argument objects changed in place "
+        "and reused, returned geometries poisoned, earlier results re-read after later calls, arguments snapshotted "
+        "around every call - every step judged by the model of its call alone (SE.Validate.history); "
+        "non-trivial = the implementation accepted the input (an object exists); "
         "distinct = distinct (operation, input)")
 TRUSTED = ["pydantic-core: typed parse of float / List[...] in python and attribute mode, Literal + default handling, "
            "ValueError inside a field validator becomes ValidationError, other exceptions propagate; smart-mode unions "
            "try every member; an instance of the requested class is returned as it is",
            "CPython json.dumps/json.loads and float repr round trip (json mode)",
-           "symbolic tracer: the validator chain is taken from cls.__pydantic_decorators__.field_validators (order, mode)"]
-ASSUMPTIONS = ["model inputs are finite numbers: ints with |n| <= 2^53, binary64 floats and numpy.float64, in (nested) lists",
+           "symbolic tracer: the validator chain is taken from cls.__pydantic_decorators__.field_validators (order, mode)",
+           "CPython: attribute lookup order and argument binding are as modelled (Where.get, bindArgs); inspect.signature "
+           "reports the signature calls are bound against",
+           "pydantic-core: lax lists accept tuples / numpy arrays / deques, lax floats accept ints and numpy scalars, "
+           "without changing the numbers; the jiter JSON parser reads the repr of a float back to that float"]
+ASSUMPTIONS = ["model inputs are finite numbers: ints with |n| <= 2^53, binary64 floats, numpy.float64 / float32 / int64, in (nested) "
+               "lists (or tuples, numpy arrays with rows of >= 2 numbers, deques)",
                "ordered-field semantics for the symbolic tie (validators only compare, no arithmetic)"]
 NOT_COMPARED = ["error messages (only the error class)", "python type of the stored numbers (int inputs become floats)",
-                "non-numeric inputs (strings, booleans, tuples) and tag-less union inputs: not generated",
+                "non-numeric inputs (strings, booleans) and tag-less union inputs: not generated",
+                "numpy arrays with a trailing dimension of 1 (numpy lets float() take a size-1 array, so pydantic reads "
+                "[[1.0], [2.0]] as a pair): numpy's coercion, outside `numeric coordinate structure`; not generated",
+                "identity of returned objects (a geometry instance may be handed back as it is); only contents are compared",
+                "key order of dumps / field declaration order (keyword-only)",
                 "non-finite floats: no model value; judged by the property's own clauses on the real objects"]
 
 TYPES = ["TimeStamp", "TimeInterval", "Point", "LineString", "Polygon", "BoundingBox",
@@ -170,7 +210,7 @@ def to_model_raw(raw):
     return raw
 
 
-SEQS = ("list", "tuple", "mixed", "ndarray", "deque")
+SEQS = ("list", "tuple", "mixed", "ndarray", "deque", "shared")
 
 
 def restyle(v, seq, depth=0):
@@ -178,6 +218,15 @@ def restyle(v, seq, depth=0):
     tuples and lists alternating, numpy arrays (rectangular structures only, else tuples), deques"""
     if seq in (None, "list") or not isinstance(v, list):
         return v
+    if seq == "shared":         # equal content as one shared object: [p, q, p] with the very same list p twice
+        memo = {}
+
+        def intern(x):
+            if not isinstance(x, list):
+                return x
+            y = [intern(z) for z in x]
+            return memo.setdefault(repr(y), y)
+        return intern(v)
     if seq == "ndarray":
         import numpy
 
@@ -1890,7 +1939,8 @@ def _boundary_cases(ctx, maxf):
     sizes = [16, 17, 256, 257, 1023, 1024, 1025] if ctx.thorough() else [17, 257, 1024, 1025]
     q = 0
     for sz in sizes:
-        pts = [[F(i, 8), F((i * 37) % 4096)] for i in range(sz)]
+        # times are not monotone (odd points run three steps ahead): reversing is not sorting
+        pts = [[F(i + (3 if i % 2 else 0), 8), F((i * 37) % 4096)] for i in range(sz)]
         bad_at = sorted({0, 16, sz // 2, sz - 1} & set(range(sz)))
         variants = [("valid", pts), ("reversed", list(reversed(pts)))]
         for i in bad_at:
@@ -1939,6 +1989,7 @@ def _stage_boundaries(ctx):
 # C03_history_prefix_independent: no call depends on what was called before).
 H_OPS = ("construct", "geometry_validate", "union_validate", "class_validate")
 H_REUSE = ("mutate", "rebind")
+H_GEOM_REUSE = ("geom_assign", "geom_copy_update", "geom_deepcopy_assign", "geom_copy_assign")
 
 
 def _h_build(step):
@@ -2006,6 +2057,8 @@ def _h_fields(step):
 def _h_modify(a, step, how):
     """the argument object of the previous step, changed in place to carry this step's content: the same dict /
     namespace (and, with `mutate`, the same coordinates list object) - nothing remembered about it may survive"""
+    if how in H_GEOM_REUSE:
+        return _h_modify_geom(a, step, how)
     new = _h_build(step)
     if new["kind"] != a["kind"] or new["op"] != a["op"] or a["kind"] not in ("kw", "dict", "dict:", "attrs:", "attrs:ns"):
         return None
@@ -2028,6 +2081,71 @@ def _h_modify(a, step, how):
         old.update(d)
     new["obj"] = old
     return new
+
+
+def _h_modify_geom(a, step, how):
+    """the geometry object handed over at the previous step, given this step's (valid, normal-form) coordinates by
+    assignment / model_copy(update=...) / a copy that is then assigned to - and handed over again.  (Should the classes
+    become frozen the assignment is refused: a fresh object then.)"""
+    import copy
+    g = a.get("obj")
+    inp = step["inp"]
+    o = inp.get("obj") or {}
+    f = o.get("fields") or {}
+    if (step["op"] not in ("geometry_validate", "union_validate") or not str(o.get("carrier", "")).startswith("geom")
+            or not o.get("normal") or not hasattr(g, "model_copy") or getattr(g, "type", None) != f.get("type")):
+        return None
+    c = to_py(f["coordinates"])
+    try:
+        if how == "geom_assign":
+            g.coordinates = c
+        elif how == "geom_copy_update":
+            g = g.model_copy(update={"coordinates": c})
+        elif how == "geom_deepcopy_assign":
+            g = copy.deepcopy(g)
+            g.coordinates = c
+        else:
+            g = copy.copy(g)
+            g.coordinates = c
+        if g.coordinates != c:
+            return None
+    except Exception:  # noqa: BLE001
+        return None
+    return {"op": step["op"], "mode": inp.get("mode"), "call": inp.get("call"), "obj": g, "kind": "attrs:geom"}
+
+
+def _normal_valid(rng, cls, maxf):
+    """valid coordinates already in normal form (box corners sorted, line string forward)"""
+    x = _rand_valid(rng, cls, maxf)
+    if cls == "BoundingBox":
+        x = [min(x[0], x[2]), min(x[1], x[3]), max(x[0], x[2]), max(x[1], x[3])]
+    if cls == "LineString" and x[0][0] > x[-1][0]:
+        x = list(reversed(x))
+    return x
+
+
+def _geom_histories(ctx, maxf, n):
+    """a geometry object as the argument: validated, changed (assignment, model_copy(update=...), copies), validated
+    again through the attributes mode and the union - the answer is the one for the coordinates it has now"""
+    rng = ctx.rng
+    hs = []
+    for i in range(n):
+        cls = TYPES[i % 9]
+        seq = []
+        for k in range(rng.randint(3, 5)):
+            f = {"type": cls, "coordinates": enc(_normal_valid(rng, cls, maxf))}
+            o = {"kind": "attrs", "carrier": "geom", "normal": True, "fields": f}
+            if rng.random() < 0.7:
+                st = {"inp": {"op": "geometry_validate", "inp": {"mode": "attributes", "obj": o}}}
+            else:
+                st = {"inp": {"op": "union_validate", "inp": {"obj": o}}}
+            if k:
+                st["reuse"] = rng.choice(H_GEOM_REUSE)
+            if rng.random() < 0.25:
+                st["poison"] = True
+            seq.append(st)
+        hs.append({"seq": seq})
+    return hs
 
 
 def _h_poison(g):
@@ -2057,6 +2175,9 @@ def _h_holds(ctx, h, io):
             return (f"step {nt['step']}: the call changed one of its arguments in place "
                     f"(before {str(nt['before'])[:160]} after {str(nt['after'])[:160]})")
         if nt["what"] == "result-changed-later":
+            nxt = h["seq"][nt["step"] + 1] if nt["step"] + 1 < len(h["seq"]) else {}
+            if nxt.get("reuse") == "geom_assign":
+                continue        # the harness itself assigned to that very object (the attributes mode hands an instance back)
             return (f"the geometry returned at step {nt['step']} changed after later calls "
                     f"(was {json.dumps(nt['first'])[:160]} now {json.dumps(nt['now'])[:160]})")
     calls = [{"op": st["inp"]["op"], "args": OPS[st["inp"]["op"]].to_model(st["inp"]["inp"])} for st in h["seq"]]
@@ -2138,6 +2259,7 @@ def _stage_histories(ctx):
         for which in ALL_ENTRIES:
             seq = [{"inp": {"op": o, "inp": i}} for o, i in entries(cls, bad, which=(which,)) + entries(cls, enc(good), which=(which,)) * 2]
             hs.append({"seq": seq})
+    hs += _geom_histories(ctx, maxf, ctx.budget(90, 900))
     for h in hs:
         for st in h["seq"]:
             ctx.tally("history:" + (("reuse-" + st["reuse"]) if st.get("reuse") else "fresh") + ("+poison" if st.get("poison") else ""))
@@ -2146,7 +2268,8 @@ def _stage_histories(ctx):
                                    "neighbour (other entry point / one leaf out of range or changed / another class of the same shape / "
                                    "reversed), x again; dict / keyword / namespace arguments reused after in-place change (same container "
                                    "and same coordinates list object); returned geometries poisoned in place; every live result "
-                                   "canonicalised again at the end; arguments snapshotted around every call")
+                                   "canonicalised again at the end; arguments snapshotted around every call; geometry objects as arguments changed by "
+                                   "assignment / model_copy(update=...) / copy + assignment between calls (valid normal-form coordinates)")
 
 
 def _nf(x):
@@ -2229,17 +2352,22 @@ def _stage_nonfinite_judged(ctx):
 
 
 def run(ctx):
+    # The differential stages come first and the symbolic tracing last: tracing runs the validators on symbolic
+    # values, and code that keeps state between calls (a cache, a "last result") would keep *those* - the later
+    # differential runs would then observe crashes that no caller can reproduce.  Histories come last among the
+    # differential stages for the same reason (they poison returned objects on purpose): a failure that only
+    # shows after earlier calls is then reported with its history as the replay.
     ctx.stage("tables", _tables, ctx)
-    ctx.stage("symbolic-ties", _symbolic_ties, ctx)
-    ctx.stage("discharge", ctx.discharge, ["Proofs.C03", "SoundeventModel.ValidateTactics", "SoundeventModel.Tactics"])
     ctx.stage("corpus", _stage_corpus, ctx)
     ctx.stage("exhaustive", _stage_exhaustive, ctx)
     ctx.stage("instances", _stage_instances, ctx)
     ctx.stage("paths", _stage_paths, ctx)
     ctx.stage("boundaries", _stage_boundaries, ctx)
-    ctx.stage("histories", _stage_histories, ctx)
     ctx.stage("random", _stage_random, ctx)
     ctx.stage("non-finite", _stage_nonfinite_judged, ctx)
+    ctx.stage("histories", _stage_histories, ctx)
+    ctx.stage("symbolic-ties", _symbolic_ties, ctx)
+    ctx.stage("discharge", ctx.discharge, ["Proofs.C03", "SoundeventModel.ValidateTactics", "SoundeventModel.Tactics"])
 
 
 # ---------------------------------------------------------------- directed search after a broken tie
